@@ -18,7 +18,7 @@ KINDS = {
             "resend_after_done", "added_not_committed_once"},
     "C09": {"payload_of_other_event", "pause_too_short", "gave_up_early", "gave_up_unlimited", "onerror_twice", "failed_twice", "fail_without_dq",
             "commit_of_dead_queued", "exhausted_not_dq_only", "exhausted_not_main_once",
-            "commit_before_send_return"},
+            "commit_before_send_return", "not_idle", "unaccounted"},     # an event of an exhausted batch that nobody ever commits
 }
 
 
@@ -59,7 +59,10 @@ def random_scenarios(ctx, n, family, start_run=1):
                       fail_pct=rng.choice([30, 60, 90]), max_fails=rng.choice([1, 2, 3, 4, 6, 9]),
                       lines=random_lines(rng, nev, rng.choice([1, 2]), rng.choice([["a"], ["a", "b"]]),
                                          rng.choice([["P"], ["P", "D"], ["P", "S"]])))
-            if rng.random() < 0.4:     # pauses judged: several workers, long retry sequences, growing intervals that matter
+            if rng.random() < 0.25:    # split parents and children inside batches that are given up to the dead queue
+                sc.update(dq=True, retry=rng.choice([0, 1]), batch=rng.choice([2, 3, 4]), workers=rng.choice([1, 2]), fail_pct=90,
+                          max_fails=rng.choice([4, 8, 12]), lines=random_lines(rng, nev, 1, ["a"], ["S", "S", "P"]))
+            elif rng.random() < 0.4:     # pauses judged: several workers, long retry sequences, growing intervals that matter
                 sc.update(retry=rng.choice([3, 4, 5]), retention_us=500, mult10=20, workers=rng.choice([2, 3, 4]), batch=1,
                           fail_pct=rng.choice([60, 85]), max_fails=rng.choice([5, 6, 9, 12]), dq=rng.random() < 0.3)
         elif family == "pool":        # C05: small capacities, both pools, refusals, several readers
